@@ -1436,7 +1436,8 @@ class AnsiString:
             obj = obj[:idx] + replace + obj[idx+len(old):]
             if count > 0:
                 count -= 1
-            idx = obj._s.find(old, idx + len(new))
+            # An empty old string matches at every position: step over one character to make progress (like str)
+            idx = obj._s.find(old, idx + len(new) + (0 if old else 1))
 
         if inplace:
             self._s = obj._s
